@@ -142,6 +142,8 @@ func checkC07(p *Program, r *Result) {
 			r.violated("C07.a", fname, "hashed buffer filled by a full read", p.pos(sumCall.Pos()), "the buffer that is hashed is not the one filled by a full read of uncompressed_size bytes")
 		}
 	}
+	r.rule("C07.v", "no view of the lexer's scratch buffer is used after the buffer was filled again", 1)
+	checkScratchViews(p, r, "C07.v")
 	r.rule("C07.e", "a decoder running dry while the chunk is staged is not reported as io.EOF", 1)
 	checkStagedReadEOF(p, r, "C07.e", lc, sumCall)
 	r.rule("C07.o", "the ValidateChunkCRCs option alone decides, once, whether chunks are validated", 1)
